@@ -35,6 +35,9 @@ GROUPS = {
                           "src/threading/rwp/Resource.cpp"]),
     "pool":    dict(props=["C07", "C08", "C20"], cxx="clang++", san=ASAN_UBSAN, vsched=True,
                     tulz=["src/threading/ThreadPool.cpp", "src/threading/Thread.cpp", "src/threading/Runnable.cpp"]),
+    "race":    dict(props=["C15"], cxx="g++", san=["-fsanitize=thread", "-fno-omit-frame-pointer"], vsched=False,
+                    tulz=[R + "SubjectRouter.cpp", R + "RoutingLevelView.cpp", R + "RoutingKeyBuilder.cpp", R + "RoutingKey.cpp",
+                          "src/threading/rwp/Resource.cpp", "src/threading/ThreadPool.cpp", "src/threading/Thread.cpp", "src/threading/Runnable.cpp"]),
     "fileio":  dict(props=["C17", "C18"], cxx="clang++", san=ASAN_UBSAN, vsched=False,
                     tulz=["src/File.cpp", "src/Path.cpp", "src/DirectoryVisitor.cpp", "src/Exception.cpp"]),
     "locale":  dict(props=["C19"], cxx="clang++", san=ASAN_UBSAN, vsched=False, tulz=["src/LocaleInfo.cpp"]),
